@@ -769,11 +769,14 @@ impl InstrFormat for StdHooks06 {
         Ok(ReadInstr::Instr(RawInstr { time, opcode: opcode as _, param_mask: 0, args_blob, ..RawInstr::DEFAULTS }))
     }
 
-    fn write_instr(&self, f: &mut BinWriter, _: &dyn Emitter, instr: &RawInstr) -> WriteResult {
+    fn write_instr(&self, f: &mut BinWriter, emitter: &dyn Emitter, instr: &RawInstr) -> WriteResult {
+        llir::reject_end_marker_lookalike(emitter, instr.opcode == 0xffff)?;
         f.write_i32(instr.time)?;
         f.write_u16(instr.opcode)?;
         f.write_u16(12)?;  // this version writes argsize rather than instr size
-        assert_eq!(instr.args_blob.len(), 12);
+        if instr.args_blob.len() != 12 {
+            return Err(emitter.as_sized().emit(error!("instruction has {} bytes of arguments (this format requires 12)", instr.args_blob.len())));
+        }
         f.write_all(&instr.args_blob)?;
         Ok(())
     }
@@ -812,10 +815,11 @@ impl InstrFormat for StdHooks10 {
         Ok(ReadInstr::Instr(RawInstr { time, opcode: opcode as u16, param_mask: 0, args_blob, ..RawInstr::DEFAULTS }))
     }
 
-    fn write_instr(&self, f: &mut BinWriter, _: &dyn Emitter, instr: &RawInstr) -> WriteResult {
+    fn write_instr(&self, f: &mut BinWriter, emitter: &dyn Emitter, instr: &RawInstr) -> WriteResult {
+        llir::reject_end_marker_lookalike(emitter, instr.opcode == 0xffff)?;
         f.write_i32(instr.time)?;
         f.write_u16(instr.opcode)?;
-        f.write_u16(self.instr_size(instr) as u16)?;
+        f.write_u16(llir::fit_header_field(emitter, "size", self.instr_size(instr))?)?;
         f.write_all(&instr.args_blob)?;
         Ok(())
     }
